@@ -57,3 +57,31 @@ Theorem C19_filter_matrix_rows_definition : forall F (o : Ops F) (n : nat) theta
   (forall jj, (gI Ap (Z.of_nat n) <= jj)%Z -> gV o ax' jj = gV o Ax jj).
 Proof. exact (fun F o => filter_matrix_rows_spec o). Qed.
 Print Assumptions C19_filter_matrix_rows_definition.
+
+(* filtering WITH lumping, one row i that stores its diagonal at position d (any field, any abs / comparison): an
+   off-diagonal entry with |a| < theta |a_ii| is set to zero and added to the diagonal, every other entry of the
+   row is kept, nothing outside the row changes -- so the row sum is preserved *)
+Require Import PV.Proofs.RelaxProofs PV.Proofs.FilterLumpProofs.
+Theorem C19_filter_row_lumping_definition : forall F (o : Ops F) inv, is_field o inv ->
+  forall theta Ap Aj (ax : list F) i d,
+  let lo := gI Ap i in let hi := gI Ap (i + 1) in
+  (0 <= lo)%Z -> (lo <= hi <= Z.of_nat (length ax))%Z ->
+  find (fun jj => (gI Aj jj =? i)%Z) (zrange lo hi) = Some d ->
+  let ax' := filter_row o theta true Ap Aj ax i in
+  length ax' = length ax /\
+  (forall jj, (lo <= jj < hi)%Z -> jj <> d ->
+     gV o ax' jj = if lump_removed o theta Aj ax i d jj then zero o else gV o ax jj) /\
+  (forall jj, (0 <= jj)%Z -> ~ (lo <= jj < hi)%Z -> gV o ax' jj = gV o ax jj) /\
+  gV o ax' d = add o (gV o ax d) (osumz o (fun jj => if lump_removed o theta Aj ax i d jj then gV o ax jj else zero o) (zrange lo hi)) /\
+  osumz o (gV o ax') (zrange lo hi) = osumz o (gV o ax) (zrange lo hi).
+Proof.
+  intros F [z0 o1 ad sb ml dv op ab eq le lt] inv [Fth _] theta Ap Aj ax i d.
+  exact (filter_row_lump_spec F z0 o1 ad ml sb op dv inv ab eq le lt Fth theta Ap Aj ax i d).
+Qed.
+Print Assumptions C19_filter_row_lumping_definition.
+(* non-vacuity: row (4, -1, 3) with the diagonal first and theta = 1/2: the entry -1 is lumped, the row becomes (3, 0, 3) *)
+Import ListNotations.
+Example C19_filter_row_lumping_example :
+  let q := fun (a : Z) (b : Z) => QArith_base.Qmake a (Z.to_pos b) in
+  filter_row opsQ (q 1 2) true [0;3]%Z [0;1;2]%Z [q 4 1; q (-1) 1; q 3 1] 0%Z = [q 3 1; q 0 1; q 3 1].
+Proof. vm_compute. reflexivity. Qed.
